@@ -1,4 +1,6 @@
 """C04 — every design-matrix column holds exactly what its label says."""
+import re
+
 import designs
 from common import Result, ask, rng_for, known_findings
 
@@ -37,17 +39,232 @@ ASSUMPTIONS = [
     "reordering of the rows (sort_values / sort_index with inplace=True, or every column rewritten in "
     "permuted order); every evaluation is judged by the same decoder on the contents the frame has at "
     "that moment",
+    "missing values (na_action='drop', the default): about a third of the cases build one more design "
+    "from the training frame with NaN / None written into some rows of one to three USED float / "
+    "string / Categorical columns, under a default, a permuted or a NON-UNIQUE index (complete rows "
+    "sharing their label with incomplete ones).  The harness selects the complete rows itself (pd.isna "
+    "over the used columns of the caller's frame, by position) and the same decoder judges the "
+    "response, common and group matrices and every term's block against that frame: as many rows as "
+    "complete rows, every column what its label says on those rows, levels (those observed on the "
+    "complete rows) in sorted / declared order",
+    "caller-supplied call atoms: extra cases whose formulas contain calls fn(v) of functions handed "
+    "over through extra_namespace that return categoric values -- plain strings, an unordered pandas "
+    "Categorical (Series or bare) whose declared categories are unsorted, one with never-observed "
+    "categories, one with both, an ordered Categorical with an unsorted declared order -- alone, in "
+    "':' products, as effect or grouping factor of a group-specific term; all stages (training, "
+    "prediction, unseen levels, in-place edits, missing values) run on them.  The harness, which owns "
+    "the functions, hands their results on each judged frame to the driver as extra frame columns "
+    "named like the atom; the decoder reads fn(v)[l] as the indicator of `result == l` and the level "
+    "order of fn(v)[..] labels is judged against that result column (sorted for strings / unordered "
+    "Categoricals, declared order for ordered ones; labels of never-observed categories are not "
+    "levels the statement orders, and an all-zero column under such a label is what the label says)",
     "numeric data are small integers / dyadic rationals; entries are compared with relative "
     "tolerance 1e-9 because center() divides by the number of rows",
 ]
 TRUSTED = ["pandas dtype inference, Categorical codes and numpy fancy indexing as modelled in "
            "Model/Matrices.lean"]
 
+# ------------------------------------------------------------------------------------------------
+# caller-supplied functions (handed over through the namespace): a call atom `fn(v)` that is not a
+# C / T / S box and returns categoric values
+# ------------------------------------------------------------------------------------------------
+def _tag(x):
+    """an injective relabelling that reverses the sorted order of labels starting with a letter"""
+    x = str(x)
+    c = x[0].lower()
+    return ("zyxwvutsrqponmlkjihgfedcba"[ord(c) - 97] if "a" <= c <= "z" else "_") + x
+
+
+def _tags(v):
+    return [_tag(x) for x in v]
+
+
+def _decl(xs):
+    """a fixed total order on the labels that is not the sorted one (restricted to the observed
+    values: the declared order of a result does not depend on which other values are present)"""
+    return sorted(set(xs), key=lambda t: (ord(t[-1]) % 3, t))
+
+
+def _like(v, cat, raw=False):
+    import pandas as pd
+    return cat if raw else pd.Series(cat, index=v.index)
+
+
+def u_str(v):
+    """plain strings"""
+    import pandas as pd
+    return pd.Series(_tags(v), index=v.index)
+
+
+def u_cat(v):
+    """unordered Categorical whose declared categories are not in sorted order"""
+    import pandas as pd
+    x = _tags(v)
+    return _like(v, pd.Categorical(x, categories=_decl(x)))
+
+
+def u_raw(v):
+    """the same, returned as a bare pandas Categorical (no Series around it)"""
+    import pandas as pd
+    x = _tags(v)
+    return pd.Categorical(x, categories=_decl(x))
+
+
+def u_unused(v):
+    """unordered Categorical, declared categories sorted, three of them never observed"""
+    import pandas as pd
+    x = _tags(v)
+    return _like(v, pd.Categorical(x, categories=sorted(set(x) | {"0_no", "nn_no", "zzz_no"})))
+
+
+def u_both(v):
+    """unordered Categorical, declared categories unsorted and some never observed"""
+    import pandas as pd
+    x = _tags(v)
+    return _like(v, pd.Categorical(x, categories=["zzz_no"] + _decl(x) + ["0_no"]))
+
+
+def u_ord(v):
+    """ordered Categorical with a declared order that is not the sorted one"""
+    import pandas as pd
+    x = _tags(v)
+    return _like(v, pd.Categorical(x, categories=_decl(x), ordered=True))
+
+
+USER_FNS = {"u_str": u_str, "u_cat": u_cat, "u_raw": u_raw, "u_unused": u_unused, "u_both": u_both,
+            "u_ord": u_ord}
+USER_RE = re.compile(r"\b(u_[a-z]+)\((\w+)\)")
+NAMES = dict(designs.NAMES, **USER_FNS)        # the namespace every design of this check is built in
+
+
+def user_columns(formula, frame):
+    """frame-JSON columns holding, for every caller-supplied call atom `fn(v)` of the formula, the
+    function's result on `frame` (computed by the harness, which owns the function), named like
+    the atom: the level source of the labels `fn(v)[l]`"""
+    import pandas as pd
+    cols, seen = [], set()
+    for fn, v in USER_RE.findall(formula):
+        name = f"{fn}({v})"
+        if name in seen or fn not in USER_FNS or v not in frame.columns:
+            continue
+        seen.add(name)
+        try:
+            res = USER_FNS[fn](frame[v])
+        except Exception:  # noqa
+            continue
+        arr = res.array if isinstance(res, pd.Series) else res
+        cols.extend(designs.frame_json(pd.DataFrame({name: pd.Series(arr)}))["cols"])
+    return cols
+
+
+def with_user(fj, formula, frame):
+    extra = user_columns(formula, frame)
+    return {"cols": list(fj["cols"]) + extra} if extra else fj
+
+
+def gen_user_formula(r):
+    """a generated formula plus one or two terms over caller-supplied call atoms `fn(v)`: alone, in
+    ':' products with numeric / categorical pieces (either order), as the effect or the grouping
+    factor of a group-specific term"""
+    base = designs.gen_formula(r, response=r.choice(["y", "y", "yc"]), max_terms=2)
+    terms = []
+    for _ in range(r.randrange(1, 3)):
+        v = r.choice(["f", "g", "h", "cu", "co"])
+        atom = f"{r.choice(sorted(USER_FNS))}({v})"
+        others = [c for c in ("f", "g", "h", "cu", "C(k)") if c != v]
+        k = r.random()
+        if k < 0.45:
+            t = atom
+        elif k < 0.6:
+            t = r.choice([f"{atom}:{{n}}", f"{{n}}:{atom}"]).format(n=r.choice(["x", "z", "center(x)"]))
+        elif k < 0.75:
+            t = r.choice([f"{atom}:{{c}}", f"{{c}}:{atom}"]).format(c=r.choice(others))
+        elif k < 0.9:
+            t = f"({r.choice(['0 + ', ''])}{atom} | {r.choice([c for c in ('g', 'h') if c != v])})"
+        else:
+            t = f"({r.choice(['1', 'x'])} | {atom})"
+        if t not in terms:
+            terms.append(t)
+    head, rhs = base.split(" ~ ", 1)
+    if r.random() < 0.5:
+        return f"{head} ~ " + " + ".join(terms) + " + " + rhs
+    return f"{head} ~ {rhs} + " + " + ".join(terms)
+
+
+# ------------------------------------------------------------------------------------------------
+# frames with missing values in used columns (na_action='drop', the default)
+# ------------------------------------------------------------------------------------------------
+NA_VARS = ["x", "z", "y", "f", "g", "h", "yc", "cu", "co"]    # float / str / Categorical columns
+NA_SHARE = 0.35                                               # share of the cases given such a frame
+
+
+def na_frame(r, df, used):
+    """the rows of `df` with missing values written into one to three USED float / string /
+    Categorical columns (NaN; None or NaN in a string column), under a fresh default / permuted /
+    NON-UNIQUE index.  returns (frame, {variable: [row positions]}) or None"""
+    import numpy as np
+    import pandas as pd
+    cands = [v for v in NA_VARS if v in used and v in df.columns]
+    if not cands:
+        return None
+    n = len(df)
+    nd = df.reset_index(drop=True).copy()
+    holes = {}
+    for v in r.sample(cands, r.randrange(1, min(3, len(cands)) + 1)):
+        rows = sorted(r.sample(range(n), r.randrange(1, max(2, n // 4 + 1))))
+        vals = nd[v].tolist()
+        dt = df[v].dtype
+        textual = not isinstance(dt, pd.CategoricalDtype) and not pd.api.types.is_numeric_dtype(dt)
+        for k in rows:
+            vals[k] = None if textual and r.random() < 0.5 else np.nan
+        if isinstance(dt, pd.CategoricalDtype):
+            nd[v] = pd.Categorical(vals, dtype=dt)
+        elif textual and r.random() < 0.5:
+            nd[v] = pd.Series(vals, dtype=object)
+        else:
+            nd[v] = vals
+        holes[v] = rows
+    return designs.scramble_index(r, nd), holes
+
+
+def na_parts(formula, nadf):
+    """design_matrices(formula, nadf) with the default na_action: the labels and matrices of the
+    response, common and group parts and of every term's block; the exception's class name if the
+    implementation refuses"""
+    import warnings
+    import formulae
+    try:
+        with warnings.catch_warnings():
+            warnings.simplefilter("ignore")
+            dm = formulae.design_matrices(formula, nadf, extra_namespace=dict(NAMES, np=__import__("numpy")))
+    except Exception as e:  # noqa
+        return type(e).__name__
+    out = []
+    if dm.response is not None:
+        labs = designs._labels([dm.response.term.term])
+        if labs is not None:
+            out.append(("response", {"labels": labs, "matrix": fast_mat(dm.response.design_matrix)}))
+    for part in ("common", "group"):
+        obj = getattr(dm, part)
+        if obj is None:
+            continue
+        labs = designs._labels(list(obj.terms.values()))
+        if labs is not None:
+            out.append((part, {"labels": labs, "matrix": fast_mat(obj.design_matrix)}))
+        out.extend((pn, p) for pn, p in term_blocks(obj, part) if "err" not in p)
+    return out
+
+
 CORPUS = [
     "y ~ f:g:h", "y ~ h:f:x", "y ~ 0 + f:h", "y ~ g:f + x", "y ~ co + cu", "y ~ C(k):f",
     "y ~ (x | g)", "y ~ (f | g)", "y ~ (0 + f | g:h)", "y ~ (x + f | h) + f", "yc ~ x", "yc[yes] ~ f",
     "y ~ 0 + (h + z)*x", "y ~ T(f, 'b'):x:h", "y ~ C(f, levels=lv_f)", "y ~ (f:x | C(k))",
     "y ~ co:f", "y ~ (1 | co) + (x | cu)", "y ~ f + g + f:g + x:f", "y ~ (z | k)",
+]
+# caller-supplied call atoms (placed after the generated cases so that those keep their streams)
+USER_CORPUS = [
+    "y ~ u_str(f) + x", "y ~ 0 + u_cat(g):x + u_unused(h)", "y ~ u_ord(f) + (1 | u_both(g))",
+    "y ~ (u_raw(h) | g) + f",
 ]
 
 
@@ -308,33 +525,48 @@ def explore(tier, seed, res=None, replay=None):
                 "/ effect columns, row order) and evaluated again, twice, each time judged on its "
                 "contents at that moment.  Every matrix is also read term by term through the slices "
                 "(dm.common[name], dm.group[name], new[name]) next to term.labels (zero-column terms "
-                "of the one-level factor `one` included)")
+                "of the one-level factor `one` included).  About a third of the cases also build the "
+                "design from a copy of the frame with missing values in used float / str / Categorical "
+                "columns under a default / permuted / non-unique index (na_action='drop'), judged "
+                "against the complete rows selected by the harness.  Extra cases use call atoms fn(v) of "
+                "caller-supplied functions returning strings / unordered Categoricals with unsorted or "
+                "never-observed declared categories / ordered Categoricals (result handed to the "
+                "decoder as a frame column)")
     n_cases = 600 if tier == "quick" else 9000
+    n_user = 70 if tier == "quick" else 600
     cases = []
     if replay is not None:
-        cases = [(replay["formula"], replay.get("seed_path", 0))]
+        cases = [(replay["formula"], replay.get("seed_path", 0), bool(replay.get("user_calls")))]
     else:
         for f in CORPUS:
-            cases.append((f, len(cases)))
+            cases.append((f, len(cases), False))
         for _ in range(n_cases):
-            cases.append((None, len(cases)))
+            cases.append((None, len(cases), False))
+        for f in USER_CORPUS:
+            cases.append((f, len(cases), True))
+        for _ in range(n_user):
+            cases.append((None, len(cases), True))
     reqs_spec, reqs_model, reqs_pipe, owners = [], [], [], []
     reqs_new, owners_new = [], []
-    for f, path in cases:
+    reqs_na, owners_na = [], []
+    for f, path, user in cases:
         r = rng_for(seed, "c04", path)
         df = designs.gen_frame(r)
         generated = f is None or (replay is not None and bool(replay.get("generated")))
         if generated:
             # (a replay of a generated case draws the same numbers, so that the frames that follow
             # in the case's stream -- disturbing frame, new frames -- are the ones of the run)
-            g = designs.gen_formula(r, extra=(r.random() < 0.3))
+            g = gen_user_formula(r) if user else designs.gen_formula(r, extra=(r.random() < 0.3))
         formula = f or g
         res.evaluations += 1
         # a second design from the same formula text on another frame (other rows, other levels
         # present) is built before this one is inspected
         other = designs.gen_frame(r, complete=False)
-        obs, req = designs.observe(formula, df, designs.NAMES, disturb=other)
+        obs, req = designs.observe(formula, df, NAMES, disturb=other)
         case = {"formula": formula, "seed_path": path, "generated": generated}
+        if user:
+            case["user_calls"] = True
+            res.count("user_call_cases")
         if req is None:
             res.count("impl_error:" + obs["err"])
             continue
@@ -344,7 +576,9 @@ def explore(tier, seed, res=None, replay=None):
             obj = getattr(obs["_dm"], part)
             if obj is not None:
                 parts.extend((pn, p) for pn, p in term_blocks(obj, part) if "err" not in p)
-        reqs_spec.append({"op": "c04_spec", "formula": formula, "frame": req["frame"],
+        # (the results of caller-supplied calls fn(v) on the frame go along as extra columns)
+        train_fj = with_user(req["frame"], formula, df)
+        reqs_spec.append({"op": "c04_spec", "formula": formula, "frame": train_fj,
                           "names": req["names"], "parts": [p for _, p in parts]})
         reqs_model.append(req)
         # the whole pipeline in Lean (no coding decisions taken from the implementation)
@@ -387,8 +621,9 @@ def explore(tier, seed, res=None, replay=None):
                     good.append((pname, p))
             if not good:
                 continue
-            reqs_new.append({"op": "c04_spec", "formula": formula, "frame": designs.frame_json(nd),
-                             "train_frame": req["frame"], "names": req["names"],
+            reqs_new.append({"op": "c04_spec", "formula": formula,
+                             "frame": with_user(designs.frame_json(nd), formula, nd),
+                             "train_frame": train_fj, "names": req["names"],
                              "parts": [p for _, p in good]})
             pcase = dict(case, stage="predict", new_frame=kind)
             if edits is not None:
@@ -397,6 +632,28 @@ def explore(tier, seed, res=None, replay=None):
                 pcase["unseen_rows"] = placed
                 pcase["new_frame_columns"] = {v: [str(x) for x in nd[v].tolist()] for v in placed}
             owners_new.append((pcase, good))
+        # missing values in used columns, na_action='drop' (the default), under a default /
+        # permuted / non-unique index: the design is judged against the COMPLETE rows of the
+        # caller's frame, which the harness selects itself (pd.isna over the used columns, by
+        # position): one row per complete row, every column what its label says on those rows
+        rn = rng_for(seed, "c04", path, "na")
+        naf = na_frame(rn, df, used) if rn.random() < NA_SHARE or replay is not None else None
+        if naf is not None:
+            import pandas as pd
+            nadf, holes = naf
+            used_cols = [v for v in sorted(used) if v in nadf.columns]
+            complete = nadf[~pd.isna(nadf[used_cols]).any(axis=1).to_numpy()]
+            nparts = na_parts(formula, nadf)
+            if isinstance(nparts, str):
+                res.count("na_impl_error:" + nparts)
+            else:
+                reqs_na.append({"op": "c04_spec", "formula": formula,
+                                "frame": with_user(designs.frame_json(complete), formula, complete),
+                                "names": req["names"], "parts": [p for _, p in nparts]})
+                owners_na.append((dict(case, stage="na_drop", na_rows=holes,
+                                       index=[int(i) for i in nadf.index],
+                                       index_unique=bool(nadf.index.is_unique),
+                                       rows=len(nadf), complete_rows=len(complete)), nparts))
         if ":" in formula.split("~")[1] or "|" in formula:
             res.nontrivial.add(formula)
         if len(res.samples) < 6:
@@ -423,6 +680,27 @@ def explore(tier, seed, res=None, replay=None):
                     "why": (f"{pname}.evaluate_new_data on the {case['new_frame']} frame: "
                             + bad_text(v["first_bad"]) if not v["ok"] else
                             f"{pname}: levels not in sorted / declared order"),
+                    "finding": None})
+    for (case, parts), sp in zip(owners_na, ask(reqs_na)):
+        if "err" in sp:
+            res.count("na_spec_skip:" + sp["err"])
+            continue
+        for (pname, p), v in zip(parts, sp["parts"]):
+            if "err" in v:
+                res.count("na_part_skip:" + v["err"] + ":" + str(v.get("what"))[:30])
+                continue
+            res.count("na_columns_judged:" + ("unique_index" if case["index_unique"]
+                                              else "non_unique_index"), v["judged"])
+            res.count("na_columns_skipped", v["skipped"])
+            if not v["ok"] or not v["level_order_ok"]:
+                res.failures.append({
+                    "case": case, "impl": {"part": pname, "labels": p["labels"],
+                                           "rows": len(p["matrix"])},
+                    "expected": f"{case['complete_rows']} rows (the complete rows of the frame), "
+                                "every column = decode(label) on those rows",
+                    "why": (f"{pname} with na_action='drop': " + bad_text(v["first_bad"])
+                            + f" on the {case['complete_rows']} complete rows of the frame"
+                            if not v["ok"] else f"{pname}: levels not in sorted / declared order"),
                     "finding": None})
     for (case, obs, _), po in zip(owners, pipe):
         if "err" in po:
